@@ -79,7 +79,7 @@ EvOk(t, env, dummy) ==
 HasDiv(t) == CASE t.op = "leaf" -> FALSE [] t.op = "div" -> TRUE [] t.op \in {"add", "sub"} -> HasDiv(t.x) \/ HasDiv(t.y) [] OTHER -> HasDiv(t.x)
 Leaves(t) == CASE t.op = "leaf" -> {t.s} [] t.op \in {"add", "sub"} -> Leaves(t.x) \cup Leaves(t.y) [] OTHER -> Leaves(t.x)
 Combine(asg, old, rhs, c) == CASE asg = "=" -> rhs [] asg = "+=" -> old + rhs [] asg = "-=" -> old - rhs
-                               [] asg = "*=" -> old * c[1] [] asg = "/=" -> old \div 2
+                               [] asg = "*=" -> old * c[1] [] asg \in {"/=", "/=i"} -> old \div 2     \* "/=i": the divisor is the integer literal 2
 \* the naive loop ; returns [mem, ok]
 RECURSIVE Loop(_, _, _, _, _)
 Loop(pr, p, cur, priv, ok) ==
@@ -90,7 +90,7 @@ Loop(pr, p, cur, priv, ok) ==
                                                                      THEN priv[CHOOSE r \in 1..n : cells[3][r] + 1 = q] ELSE cur[q]]
                                     ELSE cur, ok |-> ok]
      ELSE LET env == [cur |-> cur, ini |-> pr.buf, priv |-> priv, ops |-> pr.ops, cells |-> cells, c |-> pr.c, p |-> p]
-              scalarOnly == pr.asg \in {"*=", "/="}
+              scalarOnly == pr.asg \in {"*=", "/=", "/=i"}
               rhs == IF scalarOnly THEN 0 ELSE Ev(pr.tree, env, 0)
               old == IF own THEN priv[p] ELSE cur[cells[3][p] + 1]
               new == Combine(pr.asg, old, rhs, pr.c)
